@@ -81,6 +81,23 @@ class Gen:
 
     # ---------------------------------------------------------------- expressions
     def expr(self, T, scope, d):
+        if getattr(self, 'plain', 0): return self.expr_plain(T, scope, d)
+        return self.expr_full(T, scope, d)
+
+    def cond(self, scope, d):
+        """condition of an if-expression: kept free of category-default, overloaded, record/union and macro sub-expressions
+        (avoid list: the unchanged tree rejects some of those inside conditional contexts)"""
+        self.plain = getattr(self, 'plain', 0) + 1
+        try: return self.expr_full(BOOL, {n: t for n, t in scope.items() if t in (MI, INT, BOOL, STR, LMI)}, d)
+        finally: self.plain -= 1
+
+    def expr_plain(self, T, scope, d):
+        save = (self.macros, self.consts, self.mk, self.over, self.recs, self.unis)
+        self.macros, self.consts, self.mk, self.over, self.recs, self.unis = {}, {}, {}, {}, {}, {}
+        try: return self.expr_full(T, scope, d)
+        finally: self.macros, self.consts, self.mk, self.over, self.recs, self.unis = save
+
+    def expr_full(self, T, scope, d):
         r = self.r
         vars_T = [n for n, t in scope.items() if t == T]
         if d <= 0 or r.random() < 0.2:
@@ -96,7 +113,7 @@ class Gen:
                 dv = ('lit', MI, r.choice([1, 2, 3, 7, 10, -2, -3, 16, 255]))
                 return ('bin', op, MI, self.expr(MI, scope, d - 1), dv)
             if c < 0.45: return ('neg', MI, self.expr(MI, scope, d - 1))
-            if c < 0.52: return ('if', MI, self.expr(BOOL, scope, d - 1), self.expr(MI, scope, d - 1), self.expr(MI, scope, d - 1))
+            if c < 0.52: return ('if', MI, self.cond(scope, d - 1), self.expr(MI, scope, d - 1), self.expr(MI, scope, d - 1))
             if c < 0.66:
                 fs = [f for f, (ps, rt) in self.funcs.items() if rt == MI]
                 if fs:
@@ -140,7 +157,7 @@ class Gen:
                 if fs:
                     f = r.choice(fs); self.tags.add('call')
                     return ('call', f, [self.small_arg(pt, scope, d - 1) for pt in self.funcs[f][0]], INT)
-            if c < 0.85: return ('if', INT, self.expr(BOOL, scope, d - 1), self.expr(INT, scope, d - 1), self.expr(INT, scope, d - 1))
+            if c < 0.85: return ('if', INT, self.cond(scope, d - 1), self.expr(INT, scope, d - 1), self.expr(INT, scope, d - 1))
             if c < 0.9 and self.recs:
                 rn = r.choice(sorted(self.recs))
                 if rn in scope: return ('recfld', rn, 'q', INT)
@@ -160,7 +177,7 @@ class Gen:
         if T == STR:
             self.tags.add('string')
             if c < 0.4: return ('concat', self.expr(STR, scope, d - 1), self.expr(STR, scope, d - 1))
-            if c < 0.5: return ('if', STR, self.expr(BOOL, scope, d - 1), self.expr(STR, scope, d - 1), self.expr(STR, scope, d - 1))
+            if c < 0.5: return ('if', STR, self.cond(scope, d - 1), self.expr(STR, scope, d - 1), self.expr(STR, scope, d - 1))
             if c < 0.6 and self.unis:
                 un = r.choice(sorted(self.unis))
                 if un in scope: return ('if', STR, ('ucase', un, 't'), ('ufld', un, 't', STR), self.lit(STR))
@@ -379,10 +396,11 @@ class Render:
     """Braced rendering.  Types are pinned (E@T) only where the context does not already determine them: the unchanged
     tree mis-handles some pinned sub-expressions in nested conditional contexts (DESIGN 6a), and conditions of `if`
     statements are first stored in a Boolean variable for the same reason."""
-    def __init__(self, g): self.g = g; self.nb = 0
+    def __init__(self, g, drop_val=False, box_plus=False, extra_top=()): self.g = g; self.nb = 0; self.drop_val = drop_val; self.box_plus = box_plus; self.extra_top = list(extra_top)
 
     def anchored(self, x):
         k = x[0]
+        if k == 'raw': return True
         if k == 'lit': return x[1] in (BOOL, STR)
         if k in ('var', 'call', 'len', 'slen', 'recfld', 'ufld', 'dom', 'clos', 'ocall', 'conv', 'pow',
                  'cmp', 'and', 'or', 'not', 'empty', 'ucase', 'concat'): return True
@@ -418,6 +436,7 @@ class Render:
         if not exp and not self.anchored(x):
             return self.pin(self.e(x, True), self.typeof(x))
         k = x[0]
+        if k == 'raw': return x[1]
         if k == 'lit':
             T, v = x[1], x[2]
             if T == BOOL: return 'true' if v else 'false'
@@ -474,6 +493,7 @@ class Render:
 
     def s(self, st, ind, ret=None):
         p = '\t' * ind; k = st[0]
+        if k == 'rawstmt': return p + st[1]
         if k == 'decl': return '%s%s: %s := %s;' % (p, st[1], TYNAME[st[2]], self.e(st[3], True))
         if k == 'set': return '%s%s := %s;' % (p, st[1], self.e(st[2], True))
         if k == 'out': return '%s%s(%s);' % (p, PRINTER[st[1]], self.e(st[2], True))
@@ -519,9 +539,9 @@ class Render:
         if g.consts:
             c = g.consts
             o.append('define ZqCat: Category == with { val: % -> MI; twice: % -> MI; default twice(x: %): MI == 2 * val x };')
-            o.append('ZqDomA: ZqCat with { mkA: MI -> % } == add { Rep == MI; import from Rep; mkA(n: MI): % == per n; val(x: %): MI == rep x + ' + self.lit(c['ka']) + ' }')
+            o.append('ZqDomA: ZqCat with { mkA: MI -> % } == add { Rep == MI; import from Rep; mkA(n: MI): % == per n; ' + ('' if self.drop_val else 'val(x: %): MI == rep x + ' + self.lit(c['ka'])) + ' }')
             o.append('ZqDomB: ZqCat with { mkB: MI -> % } == add { Rep == MI; import from Rep; mkB(n: MI): % == per n; val(x: %): MI == rep x + ' + self.lit(c['kb']) + '; twice(x: %): MI == ' + self.lit(c['mb']) + ' * rep x }')
-            o.append('ZqBox(T: ZqCat): with { box: T -> %; get: % -> MI } == add { Rep == T; import from Rep; box(t: T): % == per t; get(b: %): MI == twice(rep b) + ' + self.lit(c['kg']) + ' }')
+            o.append('ZqBox(T: ZqCat): with { box: T -> %; get: % -> MI } == add { Rep == T; import from Rep; box(t: T): % == per t; get(b: %): MI == ' + ('(rep b + 1)' if self.box_plus else 'twice(rep b)') + ' + ' + self.lit(c['kg']) + ' }')
             o.append('import from ZqDomA, ZqDomB, ZqBox ZqDomA, ZqBox ZqDomB;')
         if 'exceptions' in g.feat:
             o.append('define ZqExc: Category == with;\nZqE1: ZqExc == add;\nZqE2: ZqExc == add;')
@@ -538,6 +558,7 @@ class Render:
             o.append('%s(x: MI): MI == x + %s;\n%s(s: String): MI == (#s) * 2;' % (on, self.lit(k), on))
         for tn, (lim, exc, add) in sorted(g.thr.items()):
             o.append('%s(n: MI): MI == { if n > %s then throw %s; n + %s }' % (tn, self.lit(lim), exc, self.lit(add)))
+        for t in self.extra_top: o.append(t)
         o.append('-- main')
         o.append('\n'.join(self.s(x, 0) for x in g.main))
         return '\n'.join(o) + '\n'
